@@ -78,6 +78,13 @@ theorem enumerator_correct (e : Expr) (v : Int) (h : Spec.CInt.enumerator e = so
     enumerator (render e) = .ok v :=
   Proofs.CEval.enumerator_spec e v h
 
+/-- **Enumerator list** (C11 6.7.2.2p3), for EVERY list: an enumerator with `= e` gets the value of `e` — also when
+    that value is 0 —, one without continues from the previous enumerator plus 1 (the first from 0); ppci's
+    `_calculate_enum_values` assigns exactly these values, in order. -/
+theorem enum_values_correct (l : List (Option Expr)) (vs : List Int) (h : Spec.CInt.enumValues l = some vs) :
+    enumValues (l.map (Option.map render)) = .ok vs :=
+  Proofs.CEval.enumValues_spec l vs h
+
 /-- **Array bound.** `T a[e];` with `0 < e ≤ PTRDIFF_MAX`. -/
 theorem array_size_correct (e : Expr) (v : Int) (h : Spec.CInt.arrayBound e = some v) :
     arraySize (render e) = .ok v :=
@@ -134,6 +141,10 @@ example : Spec.CInt.initBytesEnum (neg (lit 1)) = some [0xff, 0xff, 0xff, 0xff] 
 example : initializerEnum (render (neg (lit 1))) = .ok [0xff, 0xff, 0xff, 0xff] := by decide +kernel
 example : packAny .enum 4294967295 = .ok [0xff, 0xff, 0xff, 0xff] := by decide +kernel
 example : packAny .ptr (-1) = .ok [0xff, 0xff, 0xff, 0xff, 0xff, 0xff, 0xff, 0xff] := by decide +kernel
+-- `enum { RED = 3, GREEN, NONE = 0, FIRST }` is 3, 4, 0, 1: an explicit 0 is an explicit value
+example : Spec.CInt.enumValues [some (lit 3), none, some (lit 0), none] = some [3, 4, 0, 1] := by decide +kernel
+example : enumValues ([some (lit 3), none, some (.bin .sub (lit 4) (.bin .mul (lit 2) (lit 2))), none].map (Option.map render))
+    = .ok [3, 4, 0, 1] := by decide +kernel
 -- undefined behaviour has no value: INT_MAX + 1, 1 << 40, 1 / 0; but `0 && 1/0` is 0
 example : Spec.CInt.eval (.bin .add (lit 2147483647) (lit 1)) = none := by decide +kernel
 example : Spec.CInt.eval (.bin .shl (lit 1) (lit 40)) = none := by decide +kernel
